@@ -257,7 +257,16 @@ message Oneofs {
   }
   Fields fields = 3;
 }
-message Encoder { int32 decoder = 1; Decoder message = 2; }
+enum Level {
+  option allow_alias = true;
+  UNSET = 0;
+  LOW = 1;
+  MIN = 1;
+  HIGH = 7;
+  MAX = 7;
+  TOP = 7;
+}
+message Encoder { int32 decoder = 1; Decoder message = 2; Level level = 3; repeated Level levels = 4; }
 message Decoder { repeated Encoder encoder = 1; }
 """
 
